@@ -281,10 +281,38 @@ def describe_iter(I, it):
     if isinstance(it, SArr):
         snap = it.copy()
         return snap.n, (lambda i: I.unflat_elem([z3.Select(l, to_z3(i)) for l in snap.leaves], snap.kind)), (it, snap)
+    if isinstance(it, SegList):
+        # schedule lists `items * count + ...`: the elements are over-approximated by arbitrary
+        # tuples of integers of the same arity (sound: the body is verified for any element)
+        n = I.seg_len(it)
+        first = next((items[0] for items, _ in it.segs if items), None)
+        if first is None:
+            return 0, (lambda i: None), None
+        if isinstance(first, tuple):
+            return n, (lambda i: tuple(fresh_int('el') for _ in first)), None
+        return n, (lambda i: fresh_int('el')), None
     if isinstance(it, (list, tuple)):
         items = list(it)
         return len(items), (lambda i: I.getitem(items, i)), None
     raise Unsupported(f'loop over {type(it).__name__} with invariant')
+
+
+LEMMA_BUILTINS = {'sum_unfold', 'sum_split', 'sum_nonneg', 'mul_distrib'}
+
+
+def assume_lemmas(I, lemmas):
+    """Add explicit instances of proved/definitional lemmas (DESIGN 2.5: lemma use is explicit)."""
+    for c in lemmas or []:
+        node = c['ast']
+        if not (isinstance(node, ast.Call) and isinstance(node.func, ast.Name) and node.func.id in LEMMA_BUILTINS):
+            raise Unsupported(f'lemma clause must be a call of a registered lemma: {c["text"]}')
+        I.spec_mode += 1
+        try:
+            fact = I.eval(node)
+        finally:
+            I.spec_mode -= 1
+        I.trusted.add('lemma instance: ' + node.func.id)
+        I.assume(I.z3bool(fact))
 
 
 def eval_clauses(I, clauses, label):
@@ -315,10 +343,18 @@ def cut_loop(I, key, inv, s, it):
         niter, elem, watched = None, None, None
     if inv.get('bind_iter'):
         fr.locals[inv['bind_iter']] = it     # ghost name for the iterated sequence
+    for gname, gexpr in inv.get('ghost_pre', {}).items():
+        # ghost snapshot of an expression at loop entry (not havocked: the body cannot assign it)
+        I.spec_mode += 1
+        try:
+            fr.locals[gname] = I.eval(ast.parse(gexpr, mode='eval').body)
+        finally:
+            I.spec_mode -= 1
     saved_i = fr.locals.get('_i', None)
     fr.locals['_i'] = 0
     if niter is not None:
         fr.locals['_n'] = niter
+    assume_lemmas(I, inv.get('lemmas'))
     for nm, goal, text in eval_clauses(I, inv['inv'], f'{lname}-inv-init'):
         I.oblige(nm, goal, {'clause': text})
     # ---- havoc everything the body may change
@@ -359,6 +395,13 @@ def cut_loop(I, key, inv, s, it):
                 havoc_inplace(I, v, attrs=inv['frame'][name])
             else:
                 havoc_inplace(I, v)
+    genv = I.ghost.get('__env__', {})
+    for name in inv.get('ghost_mut', ()):
+        if name in genv:
+            if isinstance(genv[name], (SArr, list, SObj, SMap, SSet, dict)):
+                havoc_inplace(I, genv[name])
+            else:
+                genv[name] = fresh_like(I, genv[name])
     if is_for:
         # the iterable is re-described in the havocked state: a list iterator reads the *current* list
         niter, elem, watched = describe_iter(I, it)
@@ -370,6 +413,7 @@ def cut_loop(I, key, inv, s, it):
         I.assume(k <= to_z3(niter))
     for nm, goal, text in eval_clauses(I, inv['inv'], f'{lname}-inv-use'):
         I.assume(goal)
+    assume_lemmas(I, inv.get('lemmas'))
     # ---- body or exit
     if is_for:
         cond = k < to_z3(niter)
@@ -402,6 +446,7 @@ def cut_loop(I, key, inv, s, it):
                 # allow list -> declared array conversion
                 raise Unsupported(f'loop {key}: variable {name} changes shape in the body '
                                   f'({sh} -> {shape(fr.locals[name])})')
+        assume_lemmas(I, inv.get('lemmas'))
         for nm, goal, text in eval_clauses(I, inv['inv'], f'{lname}-inv-pres'):
             I.oblige(nm, goal, {'clause': text})
         if measure0 is not None:
@@ -414,6 +459,7 @@ def cut_loop(I, key, inv, s, it):
                      if True else None, {'clause': inv['decreases']['text']})
         raise PathEnd()
     # exit path
+    assume_lemmas(I, inv.get('lemmas'))
     I.exec_block(s.orelse)
     _restore_i(fr, saved_i)
 
